@@ -192,6 +192,8 @@ def gen_cases(tier, seed):
                     keys.append({"part": "sample", "N": N, "M": M, "vol": vol, "stack": "mix"})
     # large sample counts that are not round numbers (a block-wise draw that drops the
     # remainder: seed C15f), in both tiers; 1e6 once in the thorough tier
+    for M, ns in ((5, 2), (5, 3), (5, 4), (200, 100)):
+        keys.append({"part": "replacement", "M": M, "ns": ns})
     for ns in (150000, 234567):
         keys.append({"part": "big", "N": 2, "M": 5, "vol": "dominant", "stack": "mix", "ns": ns})
     keys.append({"part": "big", "N": 1, "M": 3, "vol": "dominant", "stack": "roll", "ns": 100001})
@@ -751,7 +753,47 @@ def run_case(key):
         return run_sample(key)
     if key["part"] == "big":
         return run_big(key)
+    if key["part"] == "replacement":
+        return run_replacement(key)
     return run_shape(key)
+
+
+def run_replacement(key):
+    """Down-sampling (n_samples below the number of grains): grains are still drawn WITH
+    replacement, in proportion to their volume - with a grain holding 90 % of the volume, over
+    the fixed seeds 0..31 some draw must contain that grain more than once (the chance that
+    none does is < 1e-40 for n_samples = 3), and its overall share of the drawn grains must be
+    near 0.9 (seed C15h: a without-replacement branch for down-sampling)."""
+    res = empty_result()
+    M, ns = key["M"], key["ns"]
+    O = _orientations(1, M)
+    F = np.full((1, M), 0.1 / (M - 1))
+    F[0, M // 2] = 0.9
+    hits = tot = 0
+    maxmult = 0
+    for seed in range(32):
+        res["n"] += 1
+        res["trans"] += 1
+        try:
+            out = _FN(O.copy(), F.copy(), ns, seed)
+        except Exception as e:
+            _V(res, "noraise", dict(key, exc=type(e).__name__, seed=seed), {"exception": repr(e)[:200]})
+            res["obs"] = type(e).__name__
+            return res
+        f = np.asarray(out[1])[0]
+        k = int((f == 0.9).sum())
+        hits += k
+        tot += f.size
+        maxmult = max(maxmult, k)
+    res["states"] = 32
+    _cl(res, "with_replacement")
+    if maxmult < 2 or not (0.8 <= hits / tot <= 0.97):
+        _V(res, "with_replacement", dict(key), {"max_multiplicity_of_dominant_grain": maxmult, "share_of_dominant_grain": hits / tot, "expected_share": 0.9})
+    res["nontrivial"].append(digest(key))
+    res["outcomes"].append(digest(hits, maxmult))
+    res["obs"] = digest(hits, maxmult)
+    res["sample"] = {"case": key, "share": hits / tot, "max_multiplicity": maxmult}
+    return res
 
 
 def finalize(agg, tier, seed):
